@@ -176,7 +176,7 @@ def correspondence(ctx):
 
 
 def run(ctx):
-    return G.run(ctx, 'C02', 'proof', ('Gen_util', 'Gen_model', 'Gen_controller', 'Gen_tables'), ['Char_model.v', 'Char_controller.v', 'C02.v'], TRUSTED,
+    return G.run(ctx, 'C02', 'proof', ('Gen_util', 'Gen_model', 'Gen_controller', 'Gen_solver', 'Gen_tables'), ['Char_model.v', 'Char_controller.v', 'C02.v'], TRUSTED,
                  correspondence=correspondence)
 
 
